@@ -24,7 +24,9 @@
 (* Stmt ::= [k:"as",  t:[s,lo,hi], al, e:Expr]   target bits lo..hi-1 of s *)
 (*        | [k:"asi", arr:Seq(sig), i:Expr, e:Expr]   arr[i] := e (whole)  *)
 (*        | [k:"if",  c:Expr, th:Seq(Stmt), el:Seq(Stmt)]                  *)
+(*        | [k:"asv", s, al, b:Expr, w, e:Expr]  s[b : b+w] := e  (slice with a computed base) *)
 (* Expr ::= [k:"sig", s, lo, hi] | [k:"lit", v, w] | [k:"idx",arr,i,lo,hi]*)
+(*        | [k:"vsl", s, b:Expr, w]   s[b : b+w], a slice whose bounds are computed from signals *)
 (*        | [k:"not", a, w] | [k:"bin", op, a, b, w]   (operands width w)  *)
 (*        | [k:"cmp", op, a, b] | [k:"ite", c, a, b]                       *)
 (*        | [k:"zext", a] | [k:"trunc", a, w] | [k:"sext", a, aw, w]       *)
@@ -48,6 +50,7 @@ Eval(e, val) ==
   CASE e.k = "sig"   -> Slice(val[e.s], e.lo, e.hi)
     [] e.k = "lit"   -> e.v
     [] e.k = "idx"   -> Slice(val[e.arr[Eval(e.i, val) + 1]], e.lo, e.hi)
+    [] e.k = "vsl"   -> LET b == Eval(e.b, val) IN Slice(val[e.s], b, b + e.w)
     [] e.k = "not"   -> (Pow2(e.w) - 1) - Eval(e.a, val)
     [] e.k = "bin"   ->
          LET a == Eval(e.a, val)  b == Eval(e.b, val)  m == Pow2(e.w) IN
@@ -90,6 +93,7 @@ RECURSIVE ExecStmts(_, _)
 ExecStmt(st, v) ==
   CASE st.k = "as"  -> WriteCell(st.al, v, SetSlice(v[st.t.s], st.t.lo, st.t.hi, Eval(st.e, v)))
     [] st.k = "asi" -> [v EXCEPT ![st.arr[Eval(st.i, v) + 1]] = Eval(st.e, v)]
+    [] st.k = "asv" -> LET b == Eval(st.b, v) IN WriteCell(st.al, v, SetSlice(v[st.s], b, b + st.w, Eval(st.e, v)))
     [] st.k = "if"  -> IF Eval(st.c, v) # 0 THEN ExecStmts(st.th, v) ELSE ExecStmts(st.el, v)
 ExecStmts(ss, v) == IF ss = <<>> THEN v ELSE ExecStmts(Tail(ss), ExecStmt(Head(ss), v))
 
@@ -99,6 +103,7 @@ RECURSIVE ExecFFStmts(_, _, _)
 ExecFFStmt(st, v, n) ==
   CASE st.k = "as"  -> WriteCell(st.al, n, SetSlice(n[st.t.s], st.t.lo, st.t.hi, Eval(st.e, v)))
     [] st.k = "asi" -> [n EXCEPT ![st.arr[Eval(st.i, v) + 1]] = Eval(st.e, v)]
+    [] st.k = "asv" -> LET b == Eval(st.b, v) IN WriteCell(st.al, n, SetSlice(n[st.s], b, b + st.w, Eval(st.e, v)))
     [] st.k = "if"  -> IF Eval(st.c, v) # 0 THEN ExecFFStmts(st.th, v, n) ELSE ExecFFStmts(st.el, v, n)
 ExecFFStmts(ss, v, n) == IF ss = <<>> THEN n ELSE ExecFFStmts(Tail(ss), v, ExecFFStmt(Head(ss), v, n))
 
@@ -115,6 +120,8 @@ ERefs(D, e) ==
     [] e.k = "lit"  -> {}
     [] e.k = "idx"  -> UNION {{<<e.arr[j], b>> : b \in e.lo .. e.hi - 1} : j \in DOMAIN e.arr}
                         \cup ERefs(D, e.i)
+    \* computed bounds: the whole signal counts as read (pymtl3's convention), and so do the signals in the bounds
+    [] e.k = "vsl"  -> SigBits(D, e.s) \cup ERefs(D, e.b)
     [] e.k \in {"not", "zext", "trunc", "sext", "red"} -> ERefs(D, e.a)
     [] e.k \in {"bin", "cmp"} -> ERefs(D, e.a) \cup ERefs(D, e.b)
     [] e.k = "ite"  -> ERefs(D, e.c) \cup ERefs(D, e.a) \cup ERefs(D, e.b)
@@ -123,9 +130,11 @@ ERefs(D, e) ==
 RECURSIVE StmtsR(_, _), StmtsW(_, _)
 StmtR(D, st) == CASE st.k = "as"  -> ERefs(D, st.e)
                   [] st.k = "asi" -> ERefs(D, st.e) \cup ERefs(D, st.i)
+                  [] st.k = "asv" -> ERefs(D, st.e) \cup ERefs(D, st.b)
                   [] st.k = "if"  -> ERefs(D, st.c) \cup StmtsR(D, st.th) \cup StmtsR(D, st.el)
 StmtW(D, st) == CASE st.k = "as"  -> {<<st.t.s, b>> : b \in st.t.lo .. st.t.hi - 1}
                   [] st.k = "asi" -> ArrBits(D, st.arr)
+                  [] st.k = "asv" -> SigBits(D, st.s)
                   [] st.k = "if"  -> StmtsW(D, st.th) \cup StmtsW(D, st.el)
 StmtsR(D, ss) == UNION {StmtR(D, ss[i]) : i \in DOMAIN ss}
 StmtsW(D, ss) == UNION {StmtW(D, ss[i]) : i \in DOMAIN ss}
